@@ -8,14 +8,11 @@ import UnytProofs.Lemmas.C14Chunk03  -- build order only: at most four chunks ar
 namespace Unyt.C14
 
 /-- every listed name of chunk 7 (four slices of 64 rows) is read by the string route and by the
-    three attribute routes as the independent reference reads it (guard: word-prefixed °C) -/
+    three attribute routes as the independent reference reads it -/
 theorem names_slice_07_0 : namesSliceOk 7 0 = true := by decide +kernel
 theorem names_slice_07_1 : namesSliceOk 7 1 = true := by decide +kernel
 theorem names_slice_07_2 : namesSliceOk 7 2 = true := by decide +kernel
 theorem names_slice_07_3 : namesSliceOk 7 3 = true := by decide +kernel
-
-/-- every excluded name of chunk 7 really is unusable as a unit string -/
-theorem exclusions_chunk_07 : exclusionsChunkOk 7 = true := by decide +kernel
 
 /-- prefix spellings 3·7 … 3·7+2 (symbols, then word forms) are rejected on every
     non-prefixable spelling (three slices of 110 spelling rows) -/
